@@ -219,7 +219,23 @@ def m_nc_ref(r, d, s):
         return None
     y, k = r.choice(others)
     c[1] = ["nc", 9000, None]
-    y["conns"][k][1] = ["ref", x["name"], c[0]]
+    ref = ["ref", x["name"], c[0]]
+    u = r.random()
+    if u < 0.35 and w >= 2:
+        # the no-connected port is referenced INDIRECTLY: through a full-width slice of the reference ...
+        y["conns"][k][1] = ["sl", ref, ["s", None, None, None]]
+    elif u < 0.6:
+        # ... or as one part of a concatenation (the other port is then one bit wider than this one)
+        wide = [(z, j) for z in md["insts"] if z is not x and z["n"] == 0 for j, cc in enumerate(z["conns"])
+                if conn_width(d, md, z, cc) == w + 1]
+        extra = expr_of_width(r, md, 1, 0)
+        if wide and extra is not None:
+            z, j = r.choice(wide)
+            z["conns"][j][1] = ["cat", [ref, extra]] if r.random() < 0.5 else ["cat", [extra, ref]]
+        else:
+            y["conns"][k][1] = ref
+    else:
+        y["conns"][k][1] = ref
     return d
 
 
@@ -243,7 +259,8 @@ def m_cycle(r, d, s):
 
 def m_unnamed(r, d, s):
     mi = s[0]
-    d["mods"][mi]["name"] = None
+    # no name at all, or the empty string as name
+    d["mods"][mi]["name"] = None if r.random() < 0.6 else ""
     return d
 
 
